@@ -116,16 +116,18 @@ pub fn apply_plain(root: &Path, vars_dir: &Path, op: &FsOp, clock: &mut u64) -> 
             vec![(K_METADATA, vec![p])]
         }
         FsOp::WriteKeepMtime { path, content } => {
+            use std::os::unix::fs::MetadataExt;
             let p = abs(path);
-            let old = match get_mtime_tick(&p) {
-                Some(t) => t,
-                None => return vec![],
+            // the exact old timestamp (seconds and nanoseconds), whatever wrote it
+            let old = match std::fs::metadata(&p) {
+                Ok(m) => libc::timespec { tv_sec: m.mtime(), tv_nsec: m.mtime_nsec() },
+                Err(_) => return vec![],
             };
             if std::fs::write(&p, content.as_bytes()).is_err() {
                 return vec![];
             }
             tick();
-            set_mtime(&p, old.max(0) as u64);
+            set_mtime_raw(&p, old);
             vec![(K_MODIFY_DATA, vec![p.clone()]), (K_CLOSE_WRITE, vec![p.clone()]), (K_METADATA, vec![p])]
         }
         FsOp::WriteOlder { path, content } => {
